@@ -94,11 +94,15 @@ class ClassicalGate(Box):
             self.name, self.cod, self.dom, self.array, _dagger)
 
     def subs(self, *args):
+        if not self.free_symbols:
+            return self
         data = rsubs(list(self.data.flatten()), *args)
         return ClassicalGate(
             self.name, self.dom, self.cod, data, _dagger=self._dagger)
 
     def lambdify(self, *symbols, **kwargs):
+        if not any(x in self.free_symbols for x in symbols):
+            return lambda *xs: self
         from sympy import lambdify
         data = lambdify(symbols, list(self.data.flatten()),
                         **dict({'modules': Tensor.np}, **kwargs))
